@@ -1,5 +1,7 @@
 package linter
 
+import "unicode/utf8"
+
 // LexClass is the lexical context of one byte of SQL text, as the text rules need it:
 // they may only re-layout or re-case code, never the content of a literal, a quoted
 // identifier or a comment.
@@ -10,7 +12,8 @@ const (
 	// that ends a -- comment is code as well.
 	LexCode LexClass = iota
 	// LexLiteral marks a byte of a '...' string literal or of a "..." or `...` quoted
-	// identifier, the quote characters included.
+	// identifier, the quote characters included. The typographic quotes the tokenizer
+	// accepts delimit these constructs as well (see quoteKind).
 	LexLiteral
 	// LexBlockComment marks a byte of a /* ... */ comment, the delimiters included.
 	LexBlockComment
@@ -32,69 +35,91 @@ const (
 	lexInBlockClose // on the '/' of "*/"
 )
 
+// quoteKind maps a quote character to the ASCII quote the tokenizer reads it as: the
+// typographic single quotes U+2018 U+2019 and the guillemets U+00AB U+00BB delimit a
+// string literal like the apostrophe, the typographic double quotes U+201C U+201D a
+// quoted identifier like the quotation mark. Any other character is returned unchanged.
+func quoteKind(r rune) rune {
+	switch r {
+	case '\u2018', '\u2019', '\u00AB', '\u00BB':
+		return '\''
+	case '\u201C', '\u201D':
+		return '"'
+	}
+	return r
+}
+
 // LexMap classifies every byte of text in a single pass. The scanner state is carried
 // across line breaks, so the second line of a multi-line string literal or block comment
 // is not mistaken for code. Inside a quoted construct a doubled quote character is part
 // of the content (the scanner closes the construct and re-opens it at once); block
-// comments do not nest. A backslash is an ordinary character: the text rules have always
-// read a backslash-escaped quote as the end of the literal, and their tests pin that
-// reading. Bytes that are not valid UTF-8 are classified like any other byte of their
-// context.
+// comments do not nest. Like the tokenizer, the scanner lets every quote character of a
+// kind (see quoteKind) open and close a construct of that kind. A backslash is an
+// ordinary character: the text rules have always read a backslash-escaped quote as the
+// end of the literal, and their tests pin that reading. Bytes that are not valid UTF-8
+// are classified like any other byte of their context.
 //
 // The result has len(text)+1 entries: entry i is the class of text[i], the last entry is
 // the context at the end of the text (LexCode when no literal or block comment is open).
 func LexMap(text string) []LexClass {
 	m := make([]LexClass, len(text)+1)
 	st := lexInCode
-	for i := 0; i < len(text); i++ {
-		c := text[i]
+	for i := 0; i < len(text); {
+		r, size := rune(text[i]), 1
+		if text[i] >= utf8.RuneSelf {
+			r, size = utf8.DecodeRuneInString(text[i:]) // an invalid byte is one character
+		}
+		q := quoteKind(r)
+		cls := LexCode
 		switch st {
 		case lexInCode:
 			switch {
-			case c == '\'':
-				m[i], st = LexLiteral, lexInSingle
-			case c == '"':
-				m[i], st = LexLiteral, lexInDouble
-			case c == '`':
-				m[i], st = LexLiteral, lexInBackquote
-			case c == '-' && i+1 < len(text) && text[i+1] == '-':
-				m[i], st = LexLineComment, lexInLineComment
-			case c == '/' && i+1 < len(text) && text[i+1] == '*':
-				m[i], st = LexBlockComment, lexInBlockOpen
-			default:
-				m[i] = LexCode
+			case q == '\'':
+				cls, st = LexLiteral, lexInSingle
+			case q == '"':
+				cls, st = LexLiteral, lexInDouble
+			case r == '`':
+				cls, st = LexLiteral, lexInBackquote
+			case r == '-' && i+1 < len(text) && text[i+1] == '-':
+				cls, st = LexLineComment, lexInLineComment
+			case r == '/' && i+1 < len(text) && text[i+1] == '*':
+				cls, st = LexBlockComment, lexInBlockOpen
 			}
 		case lexInSingle:
-			m[i] = LexLiteral
-			if c == '\'' {
+			cls = LexLiteral
+			if q == '\'' {
 				st = lexInCode // a doubled quote re-opens the literal at once
 			}
 		case lexInDouble:
-			m[i] = LexLiteral
-			if c == '"' {
+			cls = LexLiteral
+			if q == '"' {
 				st = lexInCode
 			}
 		case lexInBackquote:
-			m[i] = LexLiteral
-			if c == '`' {
+			cls = LexLiteral
+			if r == '`' {
 				st = lexInCode
 			}
 		case lexInLineComment:
-			if c == '\n' {
-				m[i], st = LexCode, lexInCode
+			if r == '\n' {
+				cls, st = LexCode, lexInCode
 			} else {
-				m[i] = LexLineComment
+				cls = LexLineComment
 			}
 		case lexInBlockOpen:
-			m[i], st = LexBlockComment, lexInBlock
+			cls, st = LexBlockComment, lexInBlock
 		case lexInBlock:
-			m[i] = LexBlockComment
-			if c == '*' && i+1 < len(text) && text[i+1] == '/' {
+			cls = LexBlockComment
+			if r == '*' && i+1 < len(text) && text[i+1] == '/' {
 				st = lexInBlockClose
 			}
 		case lexInBlockClose:
-			m[i], st = LexBlockComment, lexInCode
+			cls, st = LexBlockComment, lexInCode
 		}
+		for k := 0; k < size; k++ {
+			m[i+k] = cls
+		}
+		i += size
 	}
 	switch st {
 	case lexInCode, lexInLineComment:
